@@ -114,7 +114,7 @@ $(B)/core/baton.o: sim/core/baton.c
 
 $(B)/core/%.o: sim/core/%.c $(B)/gen/pixman-version.h
 	@mkdir -p $(dir $@)
-	$(CC) $(OPT) $(COMMON) $(SIMSAN) $(VARDEF) -Wall -Wno-unused-function -MMD -MP -c $< -o $@
+	$(CC) $(OPT) $(COMMON) $(SIMSAN) $(VARDEF) -Wall -Wno-unused-function -Wno-frame-address -MMD -MP -c $< -o $@
 
 $(B)/worlds/%.o: sim/worlds/%.c $(B)/gen/pixman-version.h
 	@mkdir -p $(dir $@)
